@@ -1,10 +1,10 @@
 package main
 
 import (
-	"regexp"
 	"fmt"
 	"go/token"
 	"os"
+	"regexp"
 	"sort"
 	"strings"
 
@@ -380,15 +380,24 @@ func runC18(p *Prog, r *Report) {
 		introPrev, _ := guardEdges(fn, evField("Introduced", true))
 		nz, _ := guardEdges(fn, condCmp(idxv, isConstInt(0), token.NEQ))
 		site := fmt.Sprintf("%s:range-verdict#%d", fa.key, i)
-		switch {
-		case viaExact && !viaBetween:
-			ok := len(introCur) > 0 && len(lastCur) > 0 && onlyVia(fn, ret.Block(), append(append([]Edge{}, introCur...), lastCur...))
-			r.Check(ok, "D4-decision", site, p.Pos(ret.Pos()), "exact hit ⇒ affected iff the event is introduced or last_affected", "on an exact hit the version is judged affected without the event being 'introduced' or 'last_affected' (a version exactly on a 'fixed' event counts as affected)")
-		case viaBetween && !viaExact:
-			ok := len(introPrev) > 0 && onlyVia(fn, ret.Block(), introPrev) && len(nz) > 0 && onlyVia(fn, ret.Block(), nz)
-			r.Check(ok, "D4-decision", site, p.Pos(ret.Pos()), "between events ⇒ affected iff a previous event exists and is 'introduced'", "between two events the version is judged affected without the previous event being an 'introduced' event")
-		default:
-			r.Fail("D4-decision", site, p.Pos(ret.Pos()), "a range verdict does not depend on whether the search hit an event exactly")
+		// a verdict reached both ways (the two tests jump to one `return true`) answers to both rules:
+		// each rule looks at its own paths, the other kind cut away
+		if !viaBetween {
+			cut := append(append(append([]Edge{}, exF...), introCur...), lastCur...)
+			ok := len(introCur) > 0 && len(lastCur) > 0 && onlyVia(fn, ret.Block(), cut)
+			st := site
+			if !viaExact {
+				st += ":exact"
+			}
+			r.Check(ok, "D4-decision", st, p.Pos(ret.Pos()), "exact hit ⇒ affected iff the event is introduced or last_affected", "on an exact hit the version is judged affected without the event being 'introduced' or 'last_affected' (a version exactly on a 'fixed' event counts as affected)")
+		}
+		if !viaExact {
+			ok := len(introPrev) > 0 && onlyVia(fn, ret.Block(), append(append([]Edge{}, exH...), introPrev...)) && len(nz) > 0 && onlyVia(fn, ret.Block(), append(append([]Edge{}, exH...), nz...))
+			st := site
+			if !viaBetween {
+				st += ":between"
+			}
+			r.Check(ok, "D4-decision", st, p.Pos(ret.Pos()), "between events ⇒ affected iff a previous event exists and is 'introduced'", "between two events the version is judged affected without the previous event being an 'introduced' event")
 		}
 	}
 	// --- D5
